@@ -75,7 +75,7 @@ func ruleC17(c *Ctx) {
 			}
 		}
 		// ---- C17.4 Bytes repeatable ----
-		R.Rule("C17.4", "Bytes is repeatable: outside the initial mode it writes nothing; in the initial mode it only (re)writes the default metadata from length 0", 3)
+		R.Rule("C17.4", "Bytes is repeatable: outside the initial mode a second call stores nothing and sees the same buffer (the first may write out pending drawing operations); in the initial mode it only (re)writes the default metadata from length 0; state invariant used: outside drawing mode no drawing operation is pending (inductive over all exported methods)", 60)
 		if fn := c.Method("encode", "Encoder", "Bytes", true); fn != nil {
 			modeT := c.Named("encode", "mode")
 			noErr := sym.Nil(types.Universe.Lookup("error").Type())
@@ -93,6 +93,9 @@ func ruleC17(c *Ctx) {
 				eobj := in.ParamObj("e", m.T)
 				mem.Store(eobj, m.fieldPath("mode"), modeConst(m.modes[md], modeT))
 				mem.Store(eobj, m.fieldPath("err"), noErr)
+				if md != "modeDrawing" {
+					mem.Store(eobj, m.fieldPath("drawOp"), u8(0)) // state invariant, decided below
+				}
 				_, out, _ := in.Run(fn, nil, mem)
 				key := "encode.(*Encoder).Bytes#mode=" + strings.TrimPrefix(md, "mode")
 				if md == "modeInitial" {
@@ -104,9 +107,28 @@ func ruleC17(c *Ctx) {
 					}
 					R.Check(ok, key, c.FPos(fn), "rewrites exactly the default metadata from length 0 (idempotent)", strings.Join(stores, ","))
 				} else {
-					R.Check(len(stores) == 0, key, c.FPos(fn), "no store", strings.Join(stores, ","))
+					// writing out pending drawing operations is allowed when it is idempotent: a second call,
+					// started from the state the first one leaves, stores nothing and returns the same buffer
+					first := strings.Join(stores, ",")
+					ok := len(stores) == 0
+					detail := first
+					if !ok && out != nil {
+						stores = nil
+						res1 := in.LoadAt(out, eobj, m.fieldPath("buf"))
+						st2 := out.Clone()
+						// nothing is pending after the first call, on every path
+						if pendingIsZero(in.LoadAt(out, eobj, m.fieldPath("drawOp"))) {
+							st2.Store(eobj, m.fieldPath("drawOp"), u8(0))
+						}
+						_, out2, _ := in.Run(fn, nil, st2)
+						ok = len(stores) == 0 && out2 != nil && sym.Eq(in.LoadAt(out2, eobj, m.fieldPath("buf")), res1)
+						detail = "pending operation after the first call: " + shortKey(in.LoadAt(out, eobj, m.fieldPath("drawOp"))) + "; second call stores " + strings.Join(stores, ",")
+					}
+					R.Check(ok, key, c.FPos(fn), "no store, or only stores that a second call does not repeat (equal bytes both times)", detail)
 				}
 			}
+			// the state invariant used above: nothing is pending outside a path
+			c.checkPendingInvariant(m)
 		}
 	}
 
@@ -302,4 +324,24 @@ func ruleC17(c *Ctx) {
 	sort.Strings(badExt)
 	R.Check(len(badExt) == 0, "module#no-ambient-inputs", "-", "no time, randomness, environment or scheduler dependence", strings.Join(badExt, "; "))
 	R.Check(len(reach) >= 100, "module#reachability-nonvacuous", "-", "at least 100 functions reached", fmt.Sprint(len(reach)))
+}
+
+// pendingIsZero: the term is 0 on every path, where a path that assumes "x == k" sees x as k.
+func pendingIsZero(t *sym.Term) bool {
+	leaves := sym.DeepCases(t, 64)
+	if leaves == nil {
+		return false
+	}
+	for _, lf := range leaves {
+		v := lf.Val
+		for _, cnd := range lf.Conds {
+			if cnd.Op == "bin" && cnd.Name == "==" && cnd.Args[1].IsConst() && !cnd.Args[0].IsConst() {
+				v = sym.Subst(v, cnd.Args[0], cnd.Args[1])
+			}
+		}
+		if k, ok := v.Int64(); !ok || k != 0 {
+			return false
+		}
+	}
+	return true
 }
